@@ -279,6 +279,7 @@ struct Engine {
     struct Bnd { z3::expr v; mpz_class lo, hi; };
     std::map<unsigned, Bnd> bounds; // ast id of Int const -> [lo,hi]
     std::map<unsigned, std::pair<z3::expr, z3::expr>> bridge; // Int term -> its bit-vector bridge
+    std::map<unsigned, z3::expr> limbProven;                  // Int terms already shown to fit one limb on this path
     // harness parameters and known-finding keys
     std::map<std::string, int64_t> params;
     std::set<std::string> knownKeys;
@@ -355,6 +356,7 @@ struct Engine {
         zrec.clear();
         bounds.clear();
         bridge.clear();
+        limbProven.clear();
         knownHit.clear();
         knownCtx.clear();
         notes.clear();
@@ -710,8 +712,8 @@ struct Engine {
         if (r == z3::sat) st.sat++; else if (r == z3::unsat) st.unsat++;
         double dt = std::chrono::duration<double>(std::chrono::steady_clock::now() - t0).count();
         st.solver_s += dt;
-        if (getenv("SYMX_QLOG") && dt > 0.3)
-            std::cerr << "query " << st.queries << " " << dt << " s result " << r << " in " << (stack.empty() ? "?" : demangle(stack.back().f->getName().str())) << " nassert " << S->assertions().size() << "\n";
+        if (getenv("SYMX_QLOG") && dt > atof(getenv("SYMX_QLOG")))
+            std::cerr << "query " << st.queries << " " << dt << " s result " << r << " native " << (curNative[0] ? curNative : "-") << " in " << (stack.empty() ? "?" : demangle(stack.back().f->getName().str())) << " nassert " << S->assertions().size() << "\n";
         if (r == z3::unknown)
             throw PathEnd{"inconclusive", "solver unknown"};
         return r;
@@ -1718,12 +1720,15 @@ struct Engine {
         ++f.pc;
     }
 
+    const char *curNative = "";
     void callFunction(const CallBase *cb, Function *callee, std::vector<Val> &args)
     {
         std::string name = callee->getName().str();
         auto nit = natives.find(name);
         if (nit != natives.end()) {
+            curNative = nit->first.c_str();
             Val r = nit->second(*this, args, cb);
+            curNative = "";
             if (unwinding) {
                 unwinding = false;
                 // the native threw: unwind from the *current* frame at this call
@@ -2806,6 +2811,8 @@ int main(int argc, char **argv)
     int jobs = 1;
     std::string startPrefix;
     uint64_t maxPaths = 1000000, sampleModels = 8;
+    std::string stopOn; // stop the exploration as soon as a path result contains this text (used by the vacuity-witness twin)
+    bool stopNow = false;
     double wallS = 1e9;
     Engine E;
     for (int i = 1; i < argc; i++) {
@@ -2826,6 +2833,7 @@ int main(int argc, char **argv)
         else if (a == "--sample-models") sampleModels = strtoull(next().c_str(), nullptr, 10);
         else if (a == "--trace") E.trace = true;
         else if (a == "--prefix") startPrefix = next();
+        else if (a == "--stop-on") stopOn = next();
         else if (a == "--known") {
             std::string k = next();
             size_t p = 0;
@@ -2930,6 +2938,11 @@ int main(int argc, char **argv)
             results.push_back(rs);
             dispatched++;
             done++;
+            if (!stopOn.empty() && rs.find(stopOn) != std::string::npos) {
+                truncated = true;
+                truncReason = "stopped on match";
+                break;
+            }
             for (auto &w : E.work)
                 queue.push_back(encPrefix(w));
         }
@@ -2982,10 +2995,10 @@ int main(int argc, char **argv)
                     }
             if (nbusy() == 0)
                 break;
-            if (wallLeft() < -20) {
+            if (stopNow || wallLeft() < -20) {
                 // hard stop: paths still running well past the wall budget are abandoned (never counted as success)
                 truncated = true;
-                truncReason = "wall budget (running paths abandoned)";
+                truncReason = stopNow ? "stopped on match" : "wall budget (running paths abandoned)";
                 for (auto &w : ws)
                     if (w.busy && !w.dead) {
                         kill(w.pid, SIGKILL);
@@ -3030,6 +3043,8 @@ int main(int argc, char **argv)
                         results.push_back(line.substr(2));
                         w.busy = false;
                         done++;
+                        if (!stopOn.empty() && line.find(stopOn) != std::string::npos)
+                            stopNow = true;
                         if (done % 500 == 0)
                             std::cerr << "symx: paths " << done << " queue " << queue.size() << "\n";
                     }
